@@ -234,19 +234,19 @@ def gen_cases(ctx):
     cases = []
     # known findings need only a few witnesses per run (the worker keeps a bounded list of oracle hits)
     fr = 0.12 if ctx.thorough else 1.0
-    for _ in range(ctx.budget(140, 2400)):
+    for _ in range(ctx.budget(140, 1400)):
         cases.append(gen_monitor(rng, ctx.widen, finding_rate=fr))
-    for _ in range(ctx.budget(90, 1600)):
+    for _ in range(ctx.budget(90, 900)):
         cases.append(gen_vecmonitor(rng, ctx.widen))
-    for _ in range(ctx.budget(220, 4000)):
+    for _ in range(ctx.budget(220, 2200)):
         cases.append(gen_eval(rng, ctx.widen))
-    for _ in range(ctx.budget(50, 800)):
+    for _ in range(ctx.budget(50, 500)):
         cases.append(gen_load(rng, ctx.widen, finding_rate=fr))
-    for _ in range(ctx.budget(20, 400)):
+    for _ in range(ctx.budget(20, 200)):
         cases.append(gen_monitor(rng, ctx.widen, floaty=True, finding_rate=fr))
-    for _ in range(ctx.budget(20, 400)):
+    for _ in range(ctx.budget(20, 200)):
         cases.append(gen_vecmonitor(rng, ctx.widen, floaty=True))
-    for _ in range(ctx.budget(30, 600)):
+    for _ in range(ctx.budget(30, 300)):
         cases.append(gen_eval(rng, ctx.widen, floaty=True))
     return cases
 
